@@ -391,21 +391,27 @@ conversion of a byte reduce to it, so the comparison rows are proved (`float_gt_
 def arithSpecOp : ArithOp → Spec.Op
   | .add => .add | .sub => .sub | .mul => .mul | .div => .div | .rem => .mod
 
+theorem float_arith_rowZ (op : ArithOp) (l r : Val) (x y : Float) (zero : Bool)
+    (hl : isNumKind l = true) (hr : isNumKind r = true)
+    (ha : ∀ o, arith o l r = .ok (arithFloat o x y)) (hz : r.isZero = zero) :
+    Agrees (binaryOp (.arith op) l r) (Spec.floatArithZ (arithSpecOp op) x y zero) := by
+  cases op <;>
+    simp only [binaryOp, hl, hr, Bool.and_self, if_true, applyBin, ha, hz, arithSpecOp, Spec.floatArithZ, arithFloat]
+  · exact agrees_val _
+  · exact agrees_val _
+  · exact agrees_val _
+  · cases zero
+    · exact agrees_val _
+    · exact agrees_err _
+  · cases zero
+    · exact agrees_val _
+    · exact agrees_err _
+
 theorem float_arith_row (op : ArithOp) (l r : Val) (x y : Float)
     (hl : isNumKind l = true) (hr : isNumKind r = true)
     (ha : ∀ o, arith o l r = .ok (arithFloat o x y)) (hz : r.isZero = (y == 0.0)) :
-    Agrees (binaryOp (.arith op) l r) (Spec.floatArith (arithSpecOp op) x y) := by
-  cases op <;>
-    simp only [binaryOp, hl, hr, Bool.and_self, if_true, applyBin, ha, hz, arithSpecOp, Spec.floatArith, arithFloat]
-  · exact agrees_val _
-  · exact agrees_val _
-  · exact agrees_val _
-  · cases y == 0.0
-    · exact agrees_val _
-    · exact agrees_err _
-  · cases y == 0.0
-    · exact agrees_val _
-    · exact agrees_err _
+    Agrees (binaryOp (.arith op) l r) (Spec.floatArith (arithSpecOp op) x y) :=
+  float_arith_rowZ op l r x y (y == 0.0) hl hr ha hz
 
 theorem float_rel_row (l r : Val) (x y : Float)
     (hl : isNumKind l = true) (hr : isNumKind r = true) (hc : l.partialCmp r = cmpFloat x y) :
@@ -446,27 +452,26 @@ theorem row_int_float (op : Operator) (a : Int64) (b : Float) :
   · exact (float_rel_row (.int a) (.float b) a.toFloat b rfl rfl rfl).2
   all_goals exact agrees_err _
 
-/-- `Int64.toFloat` is an opaque constant of this Lean version (it has no logical model, unlike
-every other `Float` primitive used here), so "the double of an integer is zero exactly when the
-integer is zero" cannot be derived; it is the one fact about the conversion that the rows
-`float / int` and `float % int` need (the VM tests the integer, the statement the converted
-operand). -/
-def ConvZeroExact (b : Int64) : Prop := (b == 0) = (b.toFloat == (0.0 : Float))
-
-theorem row_float_int (op : Operator) (a : Float) (b : Int64)
-    (hc : op = .div ∨ op = .mod → ConvZeroExact b) :
+/-- `float / int`, `float % int`: the divisor is an integer, and it is zero when the integer is —
+which is what the VM tests (`Int64.toFloat` is an opaque constant of this Lean version, so the
+zero test of this row is, rightly, not about the converted operand) -/
+theorem row_float_int (op : Operator) (a : Float) (b : Int64) :
     Agrees (execOperator op (.float a) (.int b)) (Spec.binary (specOp op) (.float a) (.int b)) := by
   cases op
   · exact agrees_val _
   · exact agrees_val _
   · exact agrees_val _
-  · exact float_arith_row .div (.float a) (.int b) a b.toFloat rfl rfl (fun _ => rfl) (hc (.inl rfl))
-  · exact float_arith_row .rem (.float a) (.int b) a b.toFloat rfl rfl (fun _ => rfl) (hc (.inr rfl))
+  · exact float_arith_rowZ .div (.float a) (.int b) a b.toFloat _ rfl rfl (fun _ => rfl) (i64_eq_zero b)
+  · exact float_arith_rowZ .rem (.float a) (.int b) a b.toFloat _ rfl rfl (fun _ => rfl) (i64_eq_zero b)
   · exact agrees_val _
   · exact agrees_val _
   · exact (float_rel_row (.float a) (.int b) a b.toFloat rfl rfl rfl).1
   · exact (float_rel_row (.float a) (.int b) a b.toFloat rfl rfl rfl).2
   all_goals exact agrees_err _
+
+example (x : Float) : Agrees (execOperator .div (.float x) (.int 0)) .error := row_float_int .div x 0
+example (x : Float) : Agrees (execOperator .mod (.float x) (.int 3)) (.value (.float (fmod x (3 : Int64).toFloat))) :=
+  row_float_int .mod x 3
 
 theorem row_float_byte (op : Operator) (a : Float) (b : UInt8) :
     Agrees (execOperator op (.float a) (.byte b)) (Spec.binary (specOp op) (.float a) (.byte b)) := by
@@ -612,19 +617,13 @@ theorem row_arr_arr (op : Operator) (i j : Nat) (xs ys : List Val) :
 
 /-! ## the table -/
 
-/-- the one family of cells that is not derived: `float / int` and `float % int` at an integer whose
-conversion to a double is not "zero exactly when the integer is" (no such integer exists on
-IEEE hardware; `Int64.toFloat` is opaque to the kernel) -/
-def convZeroRow (op : Operator) (l r : Val) : Prop :=
-  (op = .div ∨ op = .mod) ∧ ∃ a b, l = .float a ∧ r = .int b ∧ ¬ ConvZeroExact b
-
 /-- **the table**: for every operator and every pair of operand values the VM's operator code (as
 modelled) yields the value the specification fixes, a runtime error where it demands one, and
-does not panic where it is silent.  Excluded: the repetition beyond 16 MiB (`hugeRepeat`, the
-memory exclusion of the property) and `convZeroRow` (see there).  The cells not named below are
+does not panic where it is silent.  Excluded: only the repetition beyond 16 MiB (`hugeRepeat`, the
+memory exclusion of the property).  The cells not named below are
 the combinations the statement calls runtime errors (and `==`/`!=` on them, left open). -/
 theorem binary_spec (op : Operator) (l r : Val)
-    (hh : op = .mul → ¬ hugeRepeat (.arith .mul) l r) (hc : ¬ convZeroRow op l r) :
+    (hh : op = .mul → ¬ hugeRepeat (.arith .mul) l r) :
     Agrees (execOperator op l r) (Spec.binary (specOp op) l r) := by
   cases l <;> cases r
   case int.int a b => exact row_int_int op a b
@@ -633,8 +632,7 @@ theorem binary_spec (op : Operator) (l r : Val)
   case byte.int a b => exact row_byte_int op a b
   case float.float a b => exact row_float_float op a b
   case int.float a b => exact row_int_float op a b
-  case float.int a b =>
-    exact row_float_int op a b fun ho => Classical.byContradiction fun hn => hc ⟨ho, a, b, rfl, rfl, hn⟩
+  case float.int a b => exact row_float_int op a b
   case float.byte a b => exact row_float_byte op a b
   case byte.float a b => exact row_byte_float op a b
   case str.str a b => exact row_str_str op a b
@@ -671,10 +669,10 @@ example : Agrees (unaryMinus (.str "x")) .error := unary_spec .minus (.str "x")
 
 /-- non-vacuity of the table: a wrapping shift, a byte/int mix, a float comparison, an error cell -/
 example : Agrees (execOperator .shl (.int 3) (.int 127)) (.value (.int Int64.minValue)) :=
-  binary_spec .shl (.int 3) (.int 127) (by intro h; cases h) (by rintro ⟨h | h, -⟩ <;> cases h)
+  binary_spec .shl (.int 3) (.int 127) (by intro h; cases h)
 example : Agrees (execOperator .greater (.char 'a') (.int 1)) .error :=
-  binary_spec .greater (.char 'a') (.int 1) (by intro h; cases h) (by rintro ⟨h | h, -⟩ <;> cases h)
+  binary_spec .greater (.char 'a') (.int 1) (by intro h; cases h)
 example (x : Float) : Agrees (execOperator .greaterEq (.float x) (.int 7)) (.value (.bool (x ≥ (7 : Int64).toFloat))) :=
-  binary_spec .greaterEq (.float x) (.int 7) (by intro h; cases h) (by rintro ⟨h | h, -⟩ <;> cases h)
+  binary_spec .greaterEq (.float x) (.int 7) (by intro h; cases h)
 
 end P2sh.Props.C09
